@@ -46,16 +46,22 @@ func assertedMsgType(e *ir.Expr) string {
 
 // typeSwitchCases returns, for function f, the set of repo message types whose type-assertion
 // ok-edge is taken somewhere in f.
+// typeSwitchCases: the repo message types f (or a helper it calls, e.g. a per-message predicate) type-asserts.
 func typeSwitchCases(c *Ctx, f *ssa.Function) map[string]bool {
 	out := map[string]bool{}
-	for _, b := range f.Blocks {
-		for _, in := range b.Instrs {
-			if ta, ok := in.(*ssa.TypeAssert); ok {
-				n := types.TypeString(ta.AssertedType, func(p *types.Package) string { return ir.RelPkg(p.Path()) })
-				n = strings.TrimPrefix(n, "*")
-				if strings.HasPrefix(n, "x/") && strings.Contains(n, "/types.Msg") {
-					parts := strings.Split(n, "/")
-					out[parts[1]+"."+n[strings.LastIndex(n, ".")+1:]] = true
+	for g := range c.W.Reachable([]*ssa.Function{f}) {
+		if c.W.IsGenerated(g) {
+			continue
+		}
+		for _, b := range g.Blocks {
+			for _, in := range b.Instrs {
+				if ta, ok := in.(*ssa.TypeAssert); ok {
+					n := types.TypeString(ta.AssertedType, func(p *types.Package) string { return ir.RelPkg(p.Path()) })
+					n = strings.TrimPrefix(n, "*")
+					if strings.HasPrefix(n, "x/") && strings.Contains(n, "/types.Msg") {
+						parts := strings.Split(n, "/")
+						out[parts[1]+"."+n[strings.LastIndex(n, ".")+1:]] = true
+					}
 				}
 			}
 		}
@@ -89,7 +95,7 @@ func C05(c *Ctx) {
 	r.Explanation = "(A1) the only route to UndelegateCoinsFromModuleToAccount(enterprise) starts at the CheckLockedUnd ante decorator; (A2) in that decorator the unlock call is guarded (cut-reachability, looking through the detector helpers down to their type assertions) by [tx contains a WRKChain fee-bearing message ∨ a BEACON one] and by a positive locked balance of feeTx.FeePayer(), and receives that payer and feeTx.GetFee(); " +
 		"(A7) the case sets of the tx detectors and of the fee calculators equal the fee-bearing request types of each module's Msg service; (A5) decorator order ValidateBasic < WRKChain fee < BEACON fee < CheckLockedUnd < DeductFee < SigVerification < IncrementSequence; " +
 		"(A2) amount rule: the site undelegating the fee is guarded by ¬hasNeg(locked − fee_d), the site undelegating the whole locked amount by hasNeg(locked − fee_d) ∧ ¬hasNeg(spendable + locked − fee_d), and there is no third site. The mint-route pairing of C04 gives 'completion never raises spendable balance'. Structural necessary conditions; ante rollback on later failure (baseapp) and numeric min(fee, locked) are not decided."
-	r.Rules = []string{"A1.unlock-route", "A2.unlock-guard", "A7.detector-cases", "A5.decorator-order", "A2.amount-rule"}
+	r.Rules = []string{"A1.unlock-route", "A2.unlock-guard", "A7.detector-cases", "A7.detector-exhaustive", "A5.decorator-order", "A2.amount-rule"}
 	r.Trusted = []string{"baseapp discards ante state when a later decorator fails", "sdk.Coins.SafeSub hasNeg semantics", "bank vesting/delegation bookkeeping"}
 	r.NotDecided = []string{"nested (authz/group/gov) execution of WRKChain/BEACON messages bypasses the ante chain (see C06 known finding K1)", "numeric min(fee, locked)"}
 
@@ -110,7 +116,7 @@ func C05(c *Ctx) {
 	r.Floor("unlock call sites in the decorator", len(sites), 1)
 	for i, s := range sites {
 		k := fmt.Sprintf("%s|site%d", fn(dec), i)
-		g1 := w.Guarded(dec, s, func(p ir.Pred) bool { return isModuleTxPred(c, p, "wrkchain", "beacon") }, 3)
+		g1 := w.Guarded(dec, s, func(p ir.Pred) bool { return isModuleTxPred(c, p, "wrkchain", "beacon") }, 6)
 		r.Require(g1, "A2.unlock-guard", "module-tx|"+k, pos(c, s), "eFUND is unlocked only for transactions containing a WRKChain or BEACON fee-bearing message", "reachable for other transactions")
 		var payer *ir.Expr
 		call := s.(ssa.CallInstruction)
@@ -137,7 +143,7 @@ func C05(c *Ctx) {
 				}
 			}
 			return ok
-		}, 3)
+		}, 6)
 		r.Require(g2, "A2.unlock-guard", "is-locked|"+k, pos(c, s), "eFUND is unlocked only when the fee payer's stored locked amount is positive", "reachable without that check")
 	}
 
@@ -177,9 +183,61 @@ func detectorCases(c *Ctx) {
 				continue
 			}
 			r.Require(sameSet(cases, want), "A7.detector-cases", fn(f), w.Pos(f.Pos()), "the message types recognised equal the fee-bearing request types of the "+m+" Msg service "+setStr(want), "cases "+setStr(cases))
+			if isDetector {
+				detectorExistential(c, f, m)
+			}
 		}
 	}
 	r.Floor("type-switching functions in exported/ante packages", n, 6)
+}
+
+// detectorExistential: a transaction detector answers "does ANY message of the tx have a module type": a
+// constant-false return must not be reachable from inside the loop over the messages without going round
+// the loop again (a `default: return false` in the loop body decides on the first message only, so
+// [bank send, register] is not recognised and skips the fee checks and the unlock).
+func detectorExistential(c *Ctx, f *ssa.Function, m string) {
+	w, r := c.W, c.R
+	backs := ir.BackEdges(f)
+	getsMsgs := false
+	for _, b := range f.Blocks {
+		for _, in := range b.Instrs {
+			if call, ok := in.(ssa.CallInstruction); ok && methodNameOf(call) == "GetMsgs" {
+				getsMsgs = true
+			}
+		}
+	}
+	if !getsMsgs {
+		// a per-message predicate: nothing to decide here, its caller loops
+		return
+	}
+	if len(backs) == 0 {
+		r.Bad("A7.detector-exhaustive", fn(f)+"|loop", w.Pos(f.Pos()), "a "+m+" transaction detector inspects every message of the transaction", "the function takes the message list but no path ever reaches a second message (every branch of the loop body returns)")
+		return
+	}
+	for i, ret := range ir.Returns(f) {
+		if len(ret.Results) != 1 {
+			continue
+		}
+		cst, ok := ret.Results[0].(*ssa.Const)
+		if !ok || cst.Value == nil || cst.Value.String() != "false" {
+			continue
+		}
+		early := false
+		for _, be := range backs {
+			src, hdr := be[0], be[1]
+			term := src.Instrs[len(src.Instrs)-1]
+			for _, b := range f.Blocks {
+				if b == hdr || !hdr.Dominates(b) || !ir.ReachesFrom(f, b, 0, term, ir.Cut{}) {
+					continue
+				}
+				// b is a loop-body block: can it reach the false return without passing the loop header again?
+				if ir.ReachesFrom(f, b, 0, ret, ir.Cut{Barrier: func(in ssa.Instruction) bool { return in == hdr.Instrs[0] }}) {
+					early = true
+				}
+			}
+		}
+		r.Require(!early, "A7.detector-exhaustive", fmt.Sprintf("%s|return%d", fn(f), i), pos(c, ret), "a "+m+" transaction detector answers false only after every message was inspected", "a false result is returned from inside the loop over the messages (decided on one message)")
+	}
 }
 
 func decoratorOrder(c *Ctx) {
